@@ -302,6 +302,11 @@ def gen_e2e(rng, search, cores=1, thorough=False, force_reject=False):
         settings = {"total_draws": rng.randint(3, 20)}
     case = {"kind": "e2e", "search": search, "spec": spec, "terms": terms, "cores": cores, "seed": rng.randrange(10 ** 6),
             "settings": settings, "spec_paths": [p for p, _ in leaves(spec["root"])]}
+    if cores >= 2 and search in ("dynesty_static", "dynesty_dynamic", "emcee"):
+        # evaluations in the lower half of one parameter are slower: parallel jobs finish out of order
+        path, (kind, k) = [lf for lf in leaves(spec["root"]) if lf[1][0] == "p"][0]
+        p = spec["priors"][k]
+        case["slow"] = [path.split("."), (unhex(p["lo"]) + unhex(p["hi"])) / 2.0, 0.01]
     if search in ("drawer", "bfgs", "lbfgs") and cores == 1:
         case["refit"] = True
     if search == "drawer" and (force_reject or rng.random() < 0.5):
